@@ -120,7 +120,8 @@ func keptMarker(c *rules.Ctx) string {
 
 func init() {
 	Registry["C02"] = &Spec{
-		Explanation: "",
+		Explanation: "Decides structural necessary conditions of 'every posting is a real transfer': (1) zero filter - every amount queued as a sender or receiver is compared unequal to zero on every path, and the remainders the reconciler pushes back come from strictly ordered subtractions; (2) sign - a forward, path-sensitive may-be-negative analysis over the interpreter's big-number cells (signs are 'non-negative provided these parameters are', so helpers get transfer summaries) shows that no value that may be negative - a script cap, an overdraft grant, a balance, balance+grant, the remaining portion 1-sum, an allotment share - reaches a sender/receiver/posting amount without a sign test or a clamp on every path; every subtraction between a sender amount and a receiver amount is ordered by a comparison on that path (also in the branch for kept funds); portions are proved within [0,1] at the reader; (3) a posting's source is a sender's name, its destination a receiver's name that was compared unequal to the kept marker on every path, its asset the reconciler's parameter whose every argument is the current asset, which each statement assigns before anything reads it; (4) negative sent amounts are rejected by a strict comparison.",
+		NotDecided:  []string{"that big-integer subtraction in the draw/receive families never goes negative when both operands are non-negative: treated optimistically - it is the 'drawn <= requested' contract of C03/C04", "empty account names passed through variables (parseVar accepts any string as an account)"},
 		Assumptions: []string{A1, A3, A4},
 		Run: func(c *rules.Ctx) {
 			ob1 := c.R.Ob("C02.1", "ctrl/zero-filter", "every amount queued as sender or receiver is tested non-zero (or is the remainder of a strictly ordered subtraction) on every path", 4)
